@@ -381,6 +381,48 @@ pub fn run(out_path: &str, tier: &str) {
 					if let Err(e) = KeyPair::from_pem(&noisy) {
 						texts.push(show(e));
 					}
+					// damaged envelopes of every kind: blank lines, header-like lines, missing / doubled markers, stray carriage
+					// returns, the body split at each line boundary
+					let lines: Vec<&str> = pem.lines().collect();
+					let mut damaged: Vec<String> = Vec::new();
+					for i in 1..lines.len() {
+						for filler in ["", " ", "Proc-Type: 4,ENCRYPTED", "DEK-Info: AES-128-CBC,00", "X: y", "\r", "-----"] {
+							let mut l: Vec<&str> = lines.clone();
+							l.insert(i, filler);
+							damaged.push(l.join("\n") + "\n");
+						}
+					}
+					damaged.push(lines[..lines.len() - 1].join("\n"));
+					damaged.push(lines[1..].join("\n"));
+					damaged.push(format!("{}{}", pem, lines[1..].join("\n")));
+					damaged.push(pem.replace('\n', "\r\n\r\n"));
+					damaged.push(pem.replace('\n', "\n\n"));
+					for dmg in &damaged {
+						if let Err(e) = KeyPair::from_pem(dmg) {
+							texts.push(show(e));
+						}
+						for a in crate::keydrv::ALL_ALGS {
+							if let Some(a) = alg_static(a) {
+								if let Err(e) = KeyPair::from_pem_and_sign_algo(dmg, a) {
+									texts.push(show(e));
+								}
+								if let Err(e) = KeyPair::from_pkcs8_pem_and_sign_algo(dmg, a) {
+									texts.push(show(e));
+								}
+								break;
+							}
+						}
+						// the same text offered to the loaders of public things
+						if let Err(e) = SubjectPublicKeyInfo::from_pem(dmg) {
+							texts.push(show(e));
+						}
+						if let Err(e) = CertificateParams::from_ca_cert_pem(dmg) {
+							texts.push(show(e));
+						}
+						if let Err(e) = CertificateSigningRequestParams::from_pem(dmg) {
+							texts.push(show(e));
+						}
+					}
 					channel("Error(load mislabelled key pem)", &info, &needles, texts.join("\n").as_bytes(), &mut n, &mut out);
 					let mut texts = Vec::new();
 					let pkey = openssl::pkey::PKey::private_key_from_der(&info.pkcs8).unwrap();
